@@ -98,6 +98,16 @@ Fixpoint has_close (b : bytes) : bool :=
 Definition comment_body (b : bytes) : bool := forallb value_byte b && negb (has_close (b ++ [45; 45])).
 Definition comment (b : bytes) : bytes := [60; 33; 45; 45] ++ b ++ [45; 45; 62].
 
+(* ---- predefined entities (XML 1.0, 4.6): lt gt amp apos quot ------------------------------ *)
+Definition std_entities : list (bytes * Z) :=
+  [([108; 116], 60); ([103; 116], 62); ([97; 109; 112], 38); ([97; 112; 111; 115], 39); ([113; 117; 111; 116], 34)].
+
+Fixpoint std_entity (nm : bytes) (l : list (bytes * Z)) : option Z :=
+  match l with
+  | [] => None
+  | (n, c) :: r => if bytes_eqb nm n then Some c else std_entity nm r
+  end.
+
 (* ---- handles on element values (copies are independent of their source) ------------------- *)
 
 (* The reference object is a store of values: a handle denotes a value and nothing else.
